@@ -250,6 +250,33 @@ Proof. exact emit_float_example. Qed.
 Example C03_emit_roundtrip_amp_bus_fails : ltac:(let t := type of emit_roundtrip_amp_bus_fails in exact t).
 Proof. exact emit_roundtrip_amp_bus_fails. Qed.
 
+(* PER-CONSTRUCT inverse lemmas (writer model then reader model), steps of the general statement: *)
+From SV Require Import Proofs.EdifEmitLemmas.
+(* _escape_string_ is undone by the reader's %..% decoding, for EVERY string *)
+Theorem C03_unescape_escape : forall s, unescape_value (escape_string s) = Ok s.
+Proof. exact unescape_escape. Qed.
+Print Assumptions C03_unescape_escape.
+(* _output_name_of_object_ / parse_nameDef: identifier and original name come back *)
+Theorem C03_name_roundtrip : forall ident name x,
+  ident_tok_ok ident = true -> text_ok name = true -> name_sexp ident name = EmOk x ->
+  exists n, parse_namedef x = Ok n /\ nm_ident n = ident /\ nm_name n = name.
+Proof. exact name_roundtrip. Qed.
+Print Assumptions C03_name_roundtrip.
+(* str(int) / int(): every integer *)
+Theorem C03_int_roundtrip : forall z, int_tok (dec_z z) = Some z.
+Proof. exact int_roundtrip. Qed.
+Print Assumptions C03_int_roundtrip.
+(* a whole (property ..) construct with an integer, string or boolean value *)
+Theorem C03_property_roundtrip : forall p x, propid_w (pr_ident p) = true -> prop_w p = true ->
+  prop_sexp p = EmOk x -> exists args, x = SList (KW "property" :: args) /\ parse_property args = Ok p.
+Proof. exact prop_roundtrip. Qed.
+Print Assumptions C03_property_roundtrip.
+(* the direction construct *)
+Theorem C03_direction_roundtrip : forall d l, dir_sexp d = EmOk l ->
+  loop port_step false (false, 0%N) l = Ok (negb (N.eqb d 0), d).
+Proof. exact dir_roundtrip. Qed.
+Print Assumptions C03_direction_roundtrip.
+
 (* The general statement over the decidable class [writable] (Fmt/EdifEmit.v: what the reader
    checks on the written file, minus the open findings: "&_" buses, bit-like scalar names, names
    with * ?, non-ASCII text, line breaks in strings). NOT PROVED. Every run evaluates, on every
